@@ -1,6 +1,7 @@
 package main
 
 import (
+	"go/constant"
 	"go/token"
 	"fmt"
 	"go/types"
@@ -158,11 +159,53 @@ func (e *Engine) havocResult(t types.Type, prefix string) Val {
 		}
 		var tv TupleVal
 		for i := 0; i < tup.Len(); i++ {
-			tv = append(tv, e.freshVal(tup.At(i).Type(), fmt.Sprintf("%s.r%d", prefix, i)))
+			v := e.freshVal(tup.At(i).Type(), fmt.Sprintf("%s.r%d", prefix, i))
+			e.assumeNotFuture(v, tup.At(i).Type())
+			tv = append(tv, v)
 		}
 		return tv
 	}
-	return e.freshVal(t, prefix)
+	v := e.freshVal(t, prefix)
+	e.assumeNotFuture(v, t)
+	return v
+}
+
+// assumeNotFuture: memory safety of Go for the results of a call that is not executed symbolically:
+// a reference it returns denotes an object of the pre-state, an object allocated before the call,
+// or an object the callee allocated - never an object this execution allocates later. Objects
+// allocated by the callee can take any reference of the band above the numbered ones.
+func (e *Engine) assumeNotFuture(v Val, t types.Type) {
+	if len(e.sc.binders) > 0 {
+		return
+	}
+	ref := func(r string) {
+		if isBVLit(r) {
+			return
+		}
+		a := or(app("bvule", r, bvLit(uint64(0x80000000)+uint64(e.nalloc), 32)), app("bvuge", r, bvLit(0x90000000, 32)))
+		if e.allocBase != "" {
+			n := app("bvadd", e.allocBase, bvLit(uint64(e.loopAllocN[e.allocBase]), 32))
+			a = and(a, not(and(app("bvugt", r, n), app("bvult", r, app("bvadd", e.allocBase, bvLit(0x8000, 32))))))
+		}
+		e.sc.assume(a)
+		e.sc.stampRef(r, e.sc.seq)
+	}
+	switch x := v.(type) {
+	case Sc:
+		if x.S == SRef && bitsOf(t) == 0 {
+			ref(x.T)
+		}
+	case StructVal:
+		if st, ok := under(t).(*types.Struct); ok {
+			for i, f := range x.F {
+				e.assumeNotFuture(f, st.Field(i).Type())
+			}
+		}
+	case SliceVal:
+		ref(x.Arr)
+	case IfaceVal:
+		ref(x.Ref)
+	}
 }
 
 func fullName(fn *ssa.Function) string {
@@ -174,7 +217,79 @@ func fullName(fn *ssa.Function) string {
 	return s
 }
 
+// callRecord is the ghost record of the calls the function under contract makes to one callee
+// (keyed by the callee's plain name): whether some call was executed, and the arguments and
+// results of the last executed one. Read by vcCalled / vcArg / vcResult in clauses.
+type callRecord struct {
+	called string
+	ret    Val
+	resT   types.Type
+	args   []Val
+	argT   []types.Type
+	inLoop bool
+}
+
+// callFunc wraps callFunc0 and keeps the ghost call log of the function under contract.
 func (e *Engine) callFunc(fr *frame, ins ssa.Instruction, fn *ssa.Function, args []Val, bind []Val, resT types.Type, reach string, heap Heap, cc *ssa.CallCommon) (Val, string) {
+	ret, r := e.callFunc0(fr, ins, fn, args, bind, resT, reach, heap, cc)
+	if fr == nil || e.pure || e.inInit || e.root == nil || fr.fn != e.root || len(e.sc.binders) > 0 || strings.HasPrefix(fn.Name(), "vc") {
+		return ret, r
+	}
+	name := fn.Name()
+	if fn.Origin() != nil {
+		name = fn.Origin().Name()
+	}
+	if e.callLog == nil {
+		e.callLog = map[string]*callRecord{}
+	}
+	rec := &callRecord{called: reach, ret: ret, resT: resT, args: append([]Val{}, args...)}
+	for _, p := range fn.Params {
+		rec.argT = append(rec.argT, p.Type())
+	}
+	if ins != nil && ins.Block() != nil && e.innermost(fr, ins.Block()) != nil {
+		rec.inLoop = true
+	}
+	if prev := e.callLog[name]; prev != nil && !rec.inLoop && !prev.inLoop && len(prev.args) == len(rec.args) {
+		// a later call on another path: the record is the one of the call that was executed last
+		rec.called = e.sc.define("called", SBool, or(prev.called, reach))
+		merged := func() (ok bool) {
+			defer func() {
+				if r := recover(); r != nil {
+					ok = false
+				}
+			}()
+			if ret != nil && prev.ret != nil {
+				rec.ret = e.iteVal(reach, ret, prev.ret)
+			}
+			for i := range rec.args {
+				rec.args[i] = e.iteVal(reach, rec.args[i], prev.args[i])
+			}
+			return true
+		}()
+		if !merged {
+			// values that cannot be merged (interior pointers): the record is unusable in clauses
+			rec.inLoop = true
+		}
+	}
+	e.callLog[name] = rec
+	return ret, r
+}
+
+// callLogOf: the record for the callee named by the constant string argument of a ghost call.
+func (e *Engine) callLogOf(cc *ssa.CallCommon, ghost string) (*callRecord, string) {
+	c, ok := cc.Args[0].(*ssa.Const)
+	if !ok || c.Value == nil || c.Value.Kind() != constant.String {
+		fail("%s needs a literal callee name", ghost)
+	}
+	name := constant.StringVal(c.Value)
+	rec := e.callLog[name]
+	if rec != nil && rec.inLoop {
+		fail("%s(%q): the call is inside a loop, or its values on different paths cannot be merged", ghost, name)
+	}
+	return rec, name
+}
+
+func (e *Engine) callFunc0(fr *frame, ins ssa.Instruction, fn *ssa.Function, args []Val, bind []Val, resT types.Type, reach string, heap Heap, cc *ssa.CallCommon) (Val, string) {
 	name := fullName(fn)
 	if e.inInit && fn.Name() == "init" && fn != e.stack[0] {
 		e.abstracted["init of "+fn.Pkg.Pkg.Path()]++
@@ -263,6 +378,49 @@ func (e *Engine) callFunc(fr *frame, ins ssa.Instruction, fn *ssa.Function, args
 			}
 		}
 		return Sc{e.sc.define("printed", SBool, t), SBool}, reach
+	case "vcCalled":
+		// ghost: the function under contract executed a call to the named callee
+		rec, _ := e.callLogOf(cc, "vcCalled")
+		if rec == nil {
+			return Sc{"false", SBool}, reach
+		}
+		return Sc{rec.called, SBool}, reach
+	case "vcResult", "vcArg":
+		// ghost: result / argument number idx of the last executed call to the named callee
+		rec, cname := e.callLogOf(cc, baseName)
+		ic, ok := cc.Args[1].(*ssa.Const)
+		if !ok {
+			fail("%s needs a literal index", baseName)
+		}
+		idx := int(ic.Int64())
+		want := fn.Signature.Results().At(0).Type()
+		if rec == nil {
+			fail("%s(%q): the function under contract makes no such call", baseName, cname)
+		}
+		var v Val
+		var vt types.Type
+		if baseName == "vcArg" {
+			if idx < 0 || idx >= len(rec.args) {
+				fail("vcArg(%q, %d): no such argument", cname, idx)
+			}
+			v, vt = rec.args[idx], rec.argT[idx]
+		} else {
+			if tv, ok := rec.ret.(TupleVal); ok {
+				if idx < 0 || idx >= len(tv) {
+					fail("vcResult(%q, %d): no such result", cname, idx)
+				}
+				v, vt = tv[idx], rec.resT.(*types.Tuple).At(idx).Type()
+			} else {
+				if idx != 0 || rec.ret == nil {
+					fail("vcResult(%q, %d): no such result", cname, idx)
+				}
+				v, vt = rec.ret, rec.resT
+			}
+		}
+		if !types.Identical(vt, want) {
+			fail("%s(%q, %d) has type %s, the clause asks for %s", baseName, cname, idx, vt, want)
+		}
+		return v, reach
 	case "vcCallFailed":
 		if e.failedTerm == "" {
 			return Sc{"false", SBool}, reach
